@@ -109,7 +109,14 @@ def run_check(pid, tier):
         else:
             data = {"facts": {"lib": {"functions": {}, "records": {}, "globals": {}, "enums": {}}}, "meta": {"units": [], "configs": []}}
         ck = Check(pid, tier, data)
-        mod.run(ck)
+        try:
+            mod.run(ck)
+        except AnalysisBroken as e:
+            # a definite violation found before the analysis lost its footing is still reported (exit 1); the part that
+            # could not be decided is recorded as an undecidable obligation
+            if not any(o["verdict"] == "violated" for o in ck.obligations):
+                raise
+            ck.ob("analysis", "(rule module)", None, "analysis stopped early: %s" % e)
         selftest = None
         if tier == "thorough":
             for cfg in configs[1:]:
